@@ -32,7 +32,8 @@ CAST_TO = {
     "nanstd": {np.integer: np.float64},
     "nanfirst": {np.datetime64: np.int64, np.timedelta64: np.int64},
     "nanlast": {np.datetime64: np.int64, np.timedelta64: np.int64},
-    "nancount": {np.datetime64: np.int64, np.timedelta64: np.int64},
+    # numbagg counts in the dtype of the array it is given: an int8 array with more than 127 members wraps
+    "nancount": {np.datetime64: np.int64, np.timedelta64: np.int64, np.integer: np.int64},
 }
 
 
